@@ -2,6 +2,7 @@ package slog
 
 import (
 	"errors"
+	logslog "log/slog"
 )
 
 // C08: concurrent logging is race-free. Interleavings are not explored; what
@@ -88,7 +89,32 @@ func VH_C08() {
 		// serializeAttrs sorts and de-duplicates the group's own member slice in place
 		vKnown("C08-group-members-sorted-in-place")
 	}
-	via := vChoose(2)
+	via := vChoose(3)
+	if via == 2 {
+		// through the log/slog adapter: a handler derived so that the bound
+		// attribute slice has spare capacity, a record with its own attributes
+		var h logslog.Handler = &handler4LogSlog{&logimp{lg}}
+		h = h.WithAttrs([]logslog.Attr{logslog.Int("d1", 1), logslog.Int("d2", 2)}).WithAttrs([]logslog.Attr{logslog.Int("d3", 3)})
+		bound := loggerAttrs(h.(*handler4LogSlog).Logger)
+		spare := append([]Attr(nil), bound[:cap(bound)]...)
+		r := logslog.NewRecord(vTime0(), logslog.LevelInfo, msg, 0)
+		for n := vChoose(3); n > 0; n-- {
+			r.AddAttrs(logslog.Int("r", n))
+		}
+		vMonitorWrites(true)
+		_ = h.Handle(vCtx, r)
+		vMonitorWrites(false)
+		vCover("C08:adapter")
+		after := bound[:cap(bound)]
+		same := len(after) == len(spare)
+		for i := range spare {
+			same = same && i < len(after) && after[i] == spare[i]
+		}
+		vAssert(same, "C08: the handler's bound attributes (and the spare capacity behind them) are not written by Handle")
+		vAssert(vSameAttrs(rootAttrs, root.attrs) && vSameAttrs(lgAttrs, lg.attrs), "C08: the loggers' attribute slices are not modified by the call")
+		vKnown("")
+		return
+	}
 	vMonitorWrites(true)
 	if via == 0 {
 		lg.Info(msg, args...)
